@@ -18,7 +18,7 @@ META = {
                   "16 public operations (parse, constructors, parse_observable with refs, the three container property cleaners, ObjectFactory, "
                   "Bundle, MemoryStore, new_version, revoke, every marking function, on dictionaries and on objects), each applied once or twice to "
                   "the same arguments, leave deep JSON snapshots of the arguments identical and behave the same on reuse.",
-    "level_text_more": 'Also: assignment/deletion (attribute and item) of every carried name on 6 objects with custom, custom_properties and toplevel-extension properties; 12 marking operations on 5 granular-marking layouts (dict and object): input snapshot, container identity, mutation of the result. The caller\'s extensions dictionary (5 shapes) through custom classes declared with extension_name; inherited marking queries leave objects unchanged.',
+    "level_text_more": 'Also: assignment/deletion (attribute and item) of every carried name on 6 objects with custom, custom_properties and toplevel-extension properties; 12 marking operations on 5 granular-marking layouts (dict and object): input snapshot, container identity, mutation of the result. The caller\'s extensions dictionary (5 shapes) through custom classes declared with extension_name; inherited marking queries leave objects unchanged. Rounds 5-6: inputs in a form the library normalises (hash spellings, short timestamps, dict-kept objects through stores, composites, versioning, markings); timestamp objects taken from one finished object into another; dropped custom_properties entries; environments / factories / decorated classes unaffected by later calls; interoperability objects copy and version.',
     "level_note": "Operation/shape tables are selector-enumerated (E1s); only the attribute name is symbolic. Aliasing created inside C encoders is "
                   "outside the claim.",
     "technique": "CrossHair symbolic attribute names on the real __setattr__; solver-selected operation x shape cases run on the real code with "
